@@ -23,7 +23,7 @@ pub fn checks() -> Vec<Check> {
         id: "C46",
         title: "Identify only reports authenticated peer information",
         level: Level::Exploration,
-        rule: "A real identify::Behaviour runs in a real Swarm; 2..4 scripted peers connect to it (and are dialed by it) and answer each identify request, and later send identify pushes, with messages drawn per message from: public key own / another peer's / garbage / absent; signed peer record absent / valid and own / signed by another peer / own but with a flipped byte / garbage; listen addresses plain, ending in the sender's /p2p, ending in a foreign /p2p, relay paths; every message carries a serial in agent_version so that a reported Info is attributed to the message that caused it, record addresses and plain listen addresses use disjoint port ranges. For every identify::Event::Received: the reported public key derives the connection's peer id; no reported listen address ends in a foreign /p2p; addresses of the record range appear only if the message's record was valid and signed by the sender's own key, and then signed_peer_record is reported; a message whose key does not derive the connection's peer id is never reported. An honest message must be reported (non-vacuity)",
+        rule: "A real identify::Behaviour runs in a real Swarm; 2..4 scripted peers connect to it (and are dialed by it) and answer each identify request, and later send identify pushes, with messages drawn per message from: public key own / another peer's / garbage / absent; signed peer record absent / valid and own / signed by another peer / own but with a flipped byte / garbage; listen addresses plain, ending in the sender's /p2p, ending in a foreign /p2p, relay paths; every message carries a serial in agent_version so that a reported Info is attributed to the message that caused it, record addresses and plain listen addresses use disjoint port ranges. For every identify::Event::Received: the reported public key derives the connection's peer id; no reported listen address ends in a foreign /p2p; addresses of the record range appear only if the message's record was valid and signed by the sender's own key, and then signed_peer_record is reported; a message whose key does not derive the connection's peer id is never reported; independent of attribution, every reported signed_peer_record is a record of the connection's peer and record-range addresses are contained in it (so nothing of a rejected message can leak into a later report through a push). An honest message must be reported (non-vacuity)",
         assumptions: &["security/muxing stubbed (E2 stack): the connection's peer id is what the simulated handshake authenticated"],
         real: &["identify Behaviour, handler, protocol decoding (Info / PushInfo, signed envelope and peer record validation)"],
         stub: &["transport/security/muxer -> SimTransport/SimMuxer", "remote identify implementations -> scripted frames", "clock -> virtual"],
@@ -198,6 +198,19 @@ fn identify_reports() -> SimResult {
             if let Some(Protocol::P2p(x)) = a.iter().last() {
                 ensure!(x == peer_id, "C46/foreign-p2p-address", "Received for {peer_id} lists {a}, which names another peer");
             }
+        }
+        // whatever sequence of answers and pushes led to this report: a reported record is the peer's own, and addresses of
+        // the record range come from exactly that record
+        let own_record = match &info.signed_peer_record {
+            Some(env) => {
+                let rec = PeerRecord::from_signed_envelope(env.clone()).ok();
+                ensure!(rec.as_ref().map(|r| r.peer_id() == peer_id).unwrap_or(false), "C46/foreign-record-reported", "Received for {peer_id} carries a signed peer record of {:?}", rec.as_ref().map(|r| r.peer_id()));
+                rec
+            }
+            None => None,
+        };
+        for a in info.listen_addrs.iter().filter(|a| port_of(a).map(|p| p >= 7000).unwrap_or(false)) {
+            ensure!(own_record.as_ref().map(|r| r.addresses().contains(a)).unwrap_or(false), "C46/record-address-without-own-record", "Received for {peer_id} lists {a}, an address that only ever appeared inside signed records, but reports no record of that peer containing it");
         }
         let Some(serial) = info.agent_version.strip_prefix("msg-").and_then(|s| s.parse::<u64>().ok()) else { continue };
         let Some(c) = by_serial.get(&serial) else { continue };
